@@ -11,6 +11,9 @@ def run(tier):
     r = engine.model_check(vd, "names", 2 if tier == "quick" else 3)
     if r.violated:
         vd.observe("model:names:" + r.violated, {"tlc_invariant": r.violated, "output": r.out[-6000:]})
+    rb = engine.model_check(vd, "blocks", 4 if tier == "quick" else 5)
+    if rb.violated:
+        vd.observe("model:blocks:" + rb.violated, {"tlc_invariant": rb.violated, "output": rb.out[-6000:]})
     vecs, st = engine.generate("names", 3, 16, wd)
     engine.replay(vd, vecs, bdir, wd, PID, check_illformed=True)
     vecs2, st2 = engine.generate("blocks", 5, 16, wd)
@@ -18,7 +21,7 @@ def run(tier):
     return vd.finish(rule="programs of family 'names' (let with 1-2 ids, (|A|..), [|A|..], ?(|A|..), blocks "
                      "bound to names and applied, closures, ALT/OR) up to weight 3; well-formed ones compared "
                      "with Zw!Den (environments), ill-formed ones (unbound / rebound names) must be rejected "
-                     "at compile time with the corresponding message; family 'blocks': nested blocks up to weight 5 capturing the up-values A (the input) and B at several depths, applied directly or through a name", exhaustive=True, extra={"family": st, "blocks": st2})
+                     "at compile time with the corresponding message; family 'blocks': nested blocks up to weight 5 capturing the up-values A (the input) and B at several depths, applied directly or through a name; tla/Engine.tla (op_lex_closure, op_apply with its private state buffer and rendezvous, op_upread transcribed in tla/EngineOps.tla) model-checked against Zw!Den on both families for every pull count and abandonment point, and the exact pull sequence of every legal program compared with the implementation", exhaustive=True, extra={"family": st, "blocks": st2})
 
 def replay(path):
     import c01
